@@ -648,6 +648,60 @@ def run_scenario(name, cdt):
     return out, fired
 
 
+class _BodyError(Exception):
+    pass
+
+
+RAISED = [IndexError, KeyError, ValueError, ZeroDivisionError, AttributeError, _BodyError]
+
+
+def _extra_raising_scenarios():
+    """grammars used only by the raising oracle: the inner element matches in the MAIN pass of a lookahead"""
+    import pyparsing as pp
+    W, A, N, AN = pp.Word, pp.alphas, pp.nums, pp.alphanums
+
+    def X(rec, cdt, base):
+        return base.copy().add_parse_action(rec, call_during_try=cdt)
+    return {
+        "notany-main": (lambda r, c: (~X(r, c, W(N)) + W(AN)) | W(AN), "12"),
+        "notany-in-repetition": (lambda r, c: pp.OneOrMore(~X(r, c, pp.Keyword("end")) + W(A)) + "end", "a b end"),
+        "followedby-main": (lambda r, c: pp.FollowedBy(X(r, c, W(A))) + W(AN), "ab1"),
+        "notany-of-sequence": (lambda r, c: (~(W(A) + X(r, c, W(N))) + W(AN)[...]) | W(AN)[...], "a 1"),
+    }
+
+
+def run_scenario_raising(name, cdt, exc_cls):
+    """the same scenario with an action whose BODY raises exc_cls (two frames below the action) the first time it is called;
+    returns ('raised', class name) / ('ok', tokens) / ('fail', ParseException class name), and how often the action was entered"""
+    import pyparsing as pp
+    sc = _scenarios().get(name) or _extra_raising_scenarios()[name]
+    entered = []
+
+    def deeper(t):
+        if exc_cls is IndexError:
+            return [][len(t) + 3]
+        if exc_cls is KeyError:
+            return {}["k"]
+        if exc_cls is ZeroDivisionError:
+            return 1 // 0
+        if exc_cls is AttributeError:
+            return None.nothing
+        raise exc_cls("from the action body")
+
+    def rec(s, l, t):
+        entered.append(l)
+        return deeper(t)
+
+    g = sc[0](rec, cdt)
+    try:
+        r = g.parse_string(sc[1])
+        return ("ok", r.as_list()), len(entered)
+    except pp.ParseBaseException as e:
+        return ("fail", type(e).__name__), len(entered)
+    except Exception as e:
+        return ("raised", type(e).__name__), len(entered)
+
+
 # -------------------------------------------------------------------------------------------------------------
 # D. C-level callables
 # -------------------------------------------------------------------------------------------------------------
@@ -1002,6 +1056,18 @@ def correspond(ctx):
                                    "(flag below the trial chain = %s)" % (nm, cdt, len(fired), predicted, flag))
             ctx.case(cid, True, agreed)
             ctx.stat("C_container_cases")
+    # an exception raised by the BODY of an action propagates unchanged from parse_string wherever the action sits: whenever
+    # the action is entered at all, the outcome is that exception - never a result, never a ParseException
+    for nm in list(names) + sorted(_extra_raising_scenarios()):
+        for cdt in (False, True):
+            for ex in RAISED:
+                out, n_entered = run_scenario_raising(nm, cdt, ex)
+                ctx.stat("C_raising_cases")
+                if n_entered and out != ("raised", ex.__name__):
+                    ctx.violation("action-exception-lost:%s:%s" % (nm, ex.__name__),
+                                  "scenario %s (call_during_try=%s): the action was entered %d time(s) and its body raised %s, but "
+                                  "parse_string gave %r" % (nm, cdt, n_entered, ex.__name__, out),
+                                  {"kind": "container-raising", "scenario": nm, "cdt": cdt, "exc": ex.__name__})
     # lookahead observation (not part of the property's list of trial constructs): NotAny forwards do_actions
     fired = []
     g = (~pp.Word(pp.alphas).add_parse_action(lambda s, l, t: fired.append(l)) + pp.Word(pp.alphanums)) | pp.Word(pp.alphas)
@@ -1137,6 +1203,11 @@ def replay(ctx, obj):
         expect = _scenarios()[r["scenario"]][2]
         print("result", out, "fired", fired, "expected firings", expect)
         return [(l, t) for (l, t, _) in fired] == expect
+    if kind == "container-raising":
+        ex = [e for e in RAISED if e.__name__ == r["exc"]][0]
+        out, n = run_scenario_raising(r["scenario"], r["cdt"], ex)
+        print("entered", n, "outcome", out)
+        return not n or out == ("raised", ex.__name__)
     if kind == "ccallable":
         per, got, st, binds = run_c_callable(r["name"])
         doc = per[max(binds)]
